@@ -28,6 +28,9 @@ def t_generic(chk, ix):
     # a cleanup that is silently not registered cannot fail the run
     from .. import rules_context
     rules_context.check_add_cleanup(chk, ix)
+    # a scenario that was not selected (file:line) is not run - also when it has the same title as a selected one
+    from .. import rules_location
+    rules_location.check_build_feature(chk, ix)
 
 
 def run(chk, ix, tier):
